@@ -3,6 +3,15 @@ families = correspondence families (harness `gen <fam>`) with quick-tier op coun
 monitor = number of monitor cases in the quick tier (harness `monitor <id>`)."""
 
 PROPS = {
+    "C08": {
+        "families": {"signer": 3000},
+        "monitor": 900,
+        "ix_monitor": 3000,
+        "assumptions": [
+            "the MEANING of Anchor constraints (Signer = signature present, has_one = stored key equality, seeds = PDA check, AccountLoader = owner + discriminator check) is Anchor's; it is exercised by real dispatch in the C08 monitor, not proved",
+            "oracle account binding is covered by C09; integration (Kamino/Drift/Solend) and init instructions are covered by the table theorems only (they cannot be dispatched natively)",
+        ],
+    },
     "C14": {
         "families": {"bankstate": 64, "panic": 12000},
         "monitor": 600,
@@ -81,6 +90,12 @@ _NOTE = ("Trusted: Lean kernel; axioms propext/Classical.choice/Quot.sound only 
          "and by diffing model vs real code on generated operations. ")
 
 MANIFEST_TEXT = {
+    "C08": {
+        "text": "Machine-checked Lean 4 theorems by decide over the account-constraint table REGENERATED from all 78 #[derive(Accounts)] structs on every run: the 15 account-operating user instructions carry both signer-rule constraints against a Signer (receivership admits third parties only for withdraw/repay/integration withdraws); 4 more are bound by has_one = authority; every other struct with a mutable margin account is a named special case; 31 administrative instructions carry has_one = <the specific role> with the role a Signer; every existing bank / margin account is has_one-bound to the instruction's group (named permissionless cranks excepted); every vault is seeds- or has_one-bound to the bank, vault authorities and the fee state are PDAs. The signer rule itself is characterised by an iff theorem. The C08 monitor replays (instruction x 7 signer identities x frozen x receivership), single-account substitutions (foreign group/bank/account/vault/authority) and admin instructions x roles through REAL DISPATCH against an independent specification; rejected instructions must leave the store byte-identical.",
+        "design_ref": "DESIGN.md §4 C08",
+        "note": _NOTE,
+        "technique": "Lean 4 proof: decide over the source-generated constraint table + signer-rule characterisation; real-dispatch authorization matrix",
+    },
     "C14": {
         "text": "Machine-checked Lean 4 theorems: (a) on the model of validate_bank_state, diffed exhaustively (all 16 cells) against the real function: killed banks refuse every kind, deposit/borrow kind refuses paused and reduce-only, withdraw/repay/liquidate/bankruptcy kind refuses paused only; (b) by decide over tables REGENERATED from the Rust source on every run: each handler calls validate_bank_state with the required kind before any share-moving call (13 handlers incl. integrations), every one of the 23 fund-moving/position-changing instruction structs carries the !is_protocol_paused constraint on its group, and every other struct with a mutable marginfi account is classified as a non-moving bracket/flag instruction; (c) the cached pause gate is closed while a propagated pause is in force and open from start+1800 on without any update. The C14 monitor replays the (instruction x bank state) and (instruction x pause timing incl. the exact expiry second, propagated or not) matrices through real dispatch.",
         "design_ref": "DESIGN.md §4 C14",
